@@ -103,12 +103,14 @@ def impl_server(case):
     import frappy.server
     from frappy.lib import generalConfig
 
-    saved = (discovery.get_version, frappy.secnode.get_version, tcp.time, discovery.UDP_PORT, frappy.server.UDPListener)
+    saved = (discovery.get_version, frappy.secnode.get_version, tcp.time, discovery.UDP_PORT, frappy.server.UDPListener,
+             frappy.server.mkthread)
     discovery.get_version = frappy.secnode.get_version = lambda *args: 'v0.0.0-c19'
     tcp.time = types.SimpleNamespace(sleep=lambda seconds: None)        # no waiting between bind retries
     tmpdir = Path(tempfile.mkdtemp(prefix='verif-c19-'))
     blockers = {}
     listeners = []
+    responders = []          # per worker thread the server starts besides its interface threads: the object it belongs to
     created = threading.Semaphore(0)
     srv = thread = None
     result = {'rounds': []}
@@ -125,9 +127,20 @@ def impl_server(case):
         def make_listener(*args, **kwds):
             udp = discovery.UDPListener(*args, startup_broadcast=False, **kwds)     # not into the network
             listeners.append(udp)
-            created.release()
             return udp
         frappy.server.UDPListener = make_listener
+
+        # a round is up when the server has started the thread of its responder (the last thing Server.run does before it
+        # waits for its interfaces); whether a responder was CONSTRUCTED in that round is an observation, not a premise
+        real_mkthread = frappy.server.mkthread
+
+        def mkthread(func, *args, **kwds):
+            t = real_mkthread(func, *args, **kwds)
+            if getattr(func, '__name__', '') != '_interfaceThread':
+                responders.append(getattr(func, '__self__', None))
+                created.release()
+            return t
+        frappy.server.mkthread = mkthread
 
         def set_blocked(indices):
             for i in list(blockers):
@@ -155,7 +168,8 @@ def impl_server(case):
                     result['rounds'].append({'blocked': blocked, 'configured': [['tcp', p] for p in ports],
                                              'ended': True})
                     break
-                raise ServerHarnessTimeout(f'round {rnd}: no UDPListener constructed')
+                # the server is running but started no responder thread in this round: observed as such
+                responders.append(None)
             ifobjs = dict(srv.interfaces)
             bound = []
             for obj in ifobjs.values():
@@ -170,7 +184,7 @@ def impl_server(case):
                 'configured': [['tcp', p] for p in ports],
                 'reported': [[u.split('://')[0], int(u.split('://')[1]), b] for u, b in zip(ifobjs, bound)],
                 'served': [p for p in candidates if is_secop_server(p)],
-                'listener': list(listeners[-1].ports),
+                'listener': list(getattr(responders[-1], 'ports', None) or []),
                 'answers': discover(discovery.UDP_PORT),
                 'live': [list(l.ports) for l in live],
             }
@@ -195,7 +209,7 @@ def impl_server(case):
             for s in blockers.values():
                 s.close()
             (discovery.get_version, frappy.secnode.get_version, tcp.time, discovery.UDP_PORT,
-             frappy.server.UDPListener) = saved
+             frappy.server.UDPListener, frappy.server.mkthread) = saved
             shutil.rmtree(tmpdir, ignore_errors=True)
 
 
